@@ -149,8 +149,8 @@ def _atom_of(op, av):
     return None
 
 
-def build(pattern):
-    tree = sre_parse.parse(pattern, FLAGS)
+def build(pattern, flags=None):
+    tree = sre_parse.parse(pattern, FLAGS if flags is None else flags)
     nfa = NFA()
     groups = {}
     cnt = {'choice': 0, 'loop': 0}
